@@ -121,12 +121,13 @@ def can_c_enum_schema(rng):
     return decls
 
 
-def edited_version(rng, decls):
+def edited_version(rng, decls, same_size=None):
     """The same schema after an edit: every name kept, definitions changed (enum ranges, integer widths, ids).
     What a long-lived process sees when the user changes the schema and generates again."""
     import copy
     d = copy.deepcopy(decls)
-    if rng.random() < 0.5:
+    coin = rng.random() < 0.5
+    if coin if same_size is None else same_size:
         # an edit that keeps every generated file the same SIZE: ids bumped within the same number of digits, one field
         # renamed to another word of the same length
         for x in d:
@@ -212,8 +213,12 @@ def module_tree_schema(rng):
     return "FILES:" + json.dumps(K.tree_files(root, rng.randrange(8)), sort_keys=True)
 
 
+_PAIRS = {}      # id(pool) -> indices k such that s<k+1> is the edited version of s<k>
+
+
 def make_pool(seed, n):
     pool = {}
+    pairs = _PAIRS.setdefault(id(pool), [])
     i = 0
     while len(pool) < n:
         rng = stream(H(seed, "C17", "pool", i), "schema")
@@ -231,9 +236,11 @@ def make_pool(seed, n):
             add_range_and_unit(rng, decls)
         add_keywords_and_lists(stream(H(seed, "C17", "pool-extra", i), "extra"), decls)
         pool[f"s{len(pool)}"] = S.render(decls, style)
-        if i % 2 == 0 and len(pool) < n:
-            # followed by its edited version (same names, other definitions)
-            pool[f"s{len(pool)}"] = S.render(edited_version(rng, decls), style)
+        if (i % 2 == 0 or i % 5 == 4) and len(pool) < n:
+            # followed by its edited version (same names, other definitions); the CAN shapes with enums always get the
+            # edit that moves the enums' value ranges (their packed widths change)
+            pairs.append(len(pool) - 1)
+            pool[f"s{len(pool)}"] = S.render(edited_version(rng, decls, False if i % 5 == 4 else None), style)
         i += 1
     return pool
 
@@ -300,6 +307,8 @@ def gen_run(rng, pool):
     if rng.random() < 0.35:
         # a schema together with its edited version (same type names, other definitions), when the pool has the pair
         k = rng.randrange(len(pool) - 1)
+        if _PAIRS.get(id(pool)) and rng.random() < 0.8:
+            k = rng.choice(_PAIRS[id(pool)])
         sids = [f"s{k}", f"s{k + 1}"]
     hashseed = weighted(rng, [(0, 2), (rng.randint(1, 4294967295), 8)])
     clock0 = weighted(rng, [(1_700_000_000, 2), (rng.randint(0, 2_000_000_000), 5),
